@@ -89,6 +89,9 @@ package layer4
 //@ ensures[C01] result != nil && fresh(result) && result.Conn == conn && isnil(result.buf) && len(result.buf) == 0 && result.offset == 0 && result.matching == cx.matching
 //@ ensures[C01] result.Context == cx.Context && result.Logger == cx.Logger
 //@ ensures[C01] conn != nil && rpos(conn) >= 0 && rpos(conn) < 4611686018427387904 && !cx.matching ==> wf(result)
+// C08: the new connection (a tee branch, a TLS-terminated connection) may outlive cx's pooled buffer,
+// so it must not share that buffer's backing array.
+//@ ensures[C08] isnil(result.buf) || arr(result.buf) != arr(cx.buf)
 
 // The interface every connection matcher is checked against (refinement) and that the matcher
 // sets rely on: a matcher is entered frozen at the frozen offset, may only move the offset, and
